@@ -280,6 +280,27 @@ func init() {
 			}
 		}
 	})
+	// e2e.C07.corrupt: a valid written sheet with exactly one numeric/bool data cell replaced by "x!"
+	regStream("e2e.C07.corrupt", func(r *rand.Rand, n int, emit func(string, ...string)) {
+		tg := &tGen{r: r}
+		for i := 0; i < n; {
+			fs := tg.sheet()
+			if !stripProps(fs, false) {
+				continue
+			}
+			var dt []string
+			tdescTokens(fs, &dt)
+			for j := 0; j < 5 && i < n; j++ {
+				vg := &vGen{r: r, H: 1 + r.Intn(3)}
+				o := tpOpts{nr: 1, tr: 2, nor: 3, dr: 4}
+				val := vg.msg(fs, "", "", false)
+				emit("c07.case", o.token(), strconv.Itoa(vg.H), strings.Join(dt, " "), strings.Join(val, " "), strconv.Itoa(r.Intn(1000)))
+				i++
+			}
+		}
+	})
+	regImpl("c07.corrupt", func(a []string) string { return implTableParse([]string{a[0], a[1], a[2]}) })
+	regImpl("c07.skip", func(a []string) string { return "skip" })
 	regImpl("c01.rt", func(a []string) string {
 		// a: opts desc grid val
 		return implTableParse([]string{a[0], a[1], a[2]})
